@@ -322,7 +322,7 @@ structure QStep (s s' : Sys) (n : Name) (nd : Node) : Prop where
   ready : ∀ x, x ∈ s.ready → x ∈ s'.ready
   waiting : ∀ x, x ∈ s.waiting → x ∈ s'.waiting
   cur : s'.cur = s.cur ∨ (s'.cur = none ∧ (n ∈ s'.waiting ∨ nd.pc = .done))
-  fresh : ∀ k y, s'.nodes k = some y → s.nodes k = none → k ∈ s'.ready
+  fresh : ∀ k y, s'.nodes k = some y → s.nodes k = none → k ∈ s'.ready ∧ y.pc = .loopTop
   toRun : s'.toRun = s.toRun
 
 theorem genStep_q {inp : RunInput} {s : Sys} {n : Name} {nd : Node} (d : Name) (pc' : PC) (hn : s.nodes n = some nd) :
@@ -336,7 +336,9 @@ theorem genStep_q {inp : RunInput} {s : Sys} {n : Name} {nd : Node} (d : Name) (
     by_cases e1 : k = n
     · subst e1; rw [hn] at hnone; cases hnone
     · by_cases e2 : k = d
-      · subst e2; simp
+      · subst e2
+        have : y = mkNode inp k (nd.anc ++ [k]) := by simpa [setNode, e1] using hk.symm
+        subst this; exact ⟨by simp, rfl⟩
       · simp [setNode, e1, e2, hnone] at hk
   | some y =>
     simp only []
